@@ -1,9 +1,10 @@
-from . import streams_geom, streams_kexact
+from . import streams_geom, streams_kexact, streams_reconpar
 
 ID = 'C19'
 PROPS_MODULE = ['Refine.Props.C19', 'Refine.Props.C19Kexact']
 STREAMS = [streams_geom.GRAD, streams_geom.RECON]
 STREAMS += [streams_kexact.KX_LINALG, streams_kexact.KX_CLOUD, streams_kexact.KX_MESH]
+STREAMS += [streams_reconpar.RECONPAR]
 EXPLANATION = (
     'Proved (Lean 4, exact real arithmetic, over the executable model bit-compared with the C): '
     'ref_node_tet_grad_nodes returns exactly g for the field a+g.x on every non-flat tet (tetGrad_linear; guard passes iff '
